@@ -146,10 +146,56 @@ pub fn c_gfa_links_read<S: Src>(s: &mut S) {
     }
 }
 
+/// NATIVE ONLY (enumerated fallback of Verus unit gfalinks): the unstranded Kmer16 graph of ONE pseudo-random read of 300 bases
+/// (generated from the drawn seed, so nodes of 256 bases and more occur), exported as GFA: every node has exactly one S line, with its
+/// id and its sequence as ACGT text of the node's length (C20: "lists every node once with its sequence").
+pub fn c_gfa_export_long<S: Src>(s: &mut S) {
+    use crate::compression::{compress_kmers_with_hash, SimpleCompress};
+    use crate::dna_string::DnaString;
+    use crate::filter::{filter_kmers, CountFilter};
+    use crate::kmer::Kmer16;
+    let seed = s.u8();
+    let mut x: u64 = 0x9E37_79B9_7F4A_7C15 ^ ((seed as u64) << 7);
+    let mut read = DnaString::new();
+    let mut i = 0;
+    while i < 300 {
+        x ^= x << 13;
+        x ^= x >> 7;
+        x ^= x << 17;
+        read.push((x & 3) as u8);
+        i += 1;
+    }
+    let seqs = vec![(read, Exts::empty(), 0u8)];
+    let summarizer: Box<CountFilter> = Box::new(CountFilter::new(1));
+    let (index, _) = filter_kmers::<Kmer16, _, _, _, _>(&seqs, &summarizer, false, false, 4);
+    let spec = SimpleCompress::new(|a: u16, b: &u16| a.saturating_add(*b));
+    let graph = compress_kmers_with_hash(false, &spec, &index).finish_serial();
+    let mut out: Vec<u8> = Vec::new();
+    graph.write_gfa(&mut out).unwrap();
+    let text = String::from_utf8(out).unwrap();
+    let mut u = 0;
+    while u < graph.len() {
+        let node = graph.get_node(u);
+        let want = node.sequence().to_dna_string();
+        let mut n_lines = 0;
+        let mut ok = false;
+        for l in text.lines() {
+            let f: Vec<&str> = l.split('\t').collect();
+            if f.len() >= 3 && f[0] == "S" && f[1].parse::<usize>().ok() == Some(u) {
+                n_lines += 1;
+                ok = f[2] == want && f[2].len() == node.len();
+            }
+        }
+        chk!(s, n_lines == 1 && ok, "GFA export: node has exactly one S line carrying its id and its sequence as ACGT text");
+        u += 1;
+    }
+}
+
 pub fn replay(name: &str, s: &mut crate::verif::src::RSrc) -> bool {
     match name {
         "g_node_iter_seq" => c_node_iter_seq(s),
         "g_gfa_links_read" => c_gfa_links_read(s),
+        "g_gfa_export_long" => c_gfa_export_long(s),
         "g_json_links_reads" => c_json_links_reads(s),
         _ => return false,
     }
